@@ -41,6 +41,40 @@ def oracle(case, obs, A, norm):
     return out
 
 
+SOAPENV = "http://schemas.xmlsoap.org/soap/envelope/"
+
+
+def corpus_assignment(c, cases):
+    """the assignment recovered from the output of the hand-written corpus inputs (which have no generated reference): bijectivity,
+    legal names, declared prefixes. One recorded finding is recognised by its input class: the SOAP 1.1 envelope namespace as the
+    target namespace of imported components gets the envelope writer's fixed prefix and an assigned one."""
+    fails = []
+    listed = c.known_classes()
+    n = 0
+    said = set()
+    for cs in cases:
+        if not cs["meta"].get("corpus") or not cs["impl"].startswith("ok"):
+            continue
+        n += 1
+        obs = g.parse_obs(cs["impl_obs"])
+        A = g.assignment(obs)
+        for pb in A["problems"]:
+            if pb.startswith(f"namespace {SOAPENV} has prefixes") and "soapenv" in pb and "soap-envelope-namespace-two-prefixes" in listed:
+                if pb not in said:
+                    said.add(pb)
+                    c.known(f"soap-envelope-namespace-two-prefixes: corpus/{cs['meta']['corpus']}: {pb}")
+            else:
+                fails.append(("assignment-not-injective", f"corpus/{cs['meta']['corpus']}: {pb}", cs))
+        for pfx in A["prefix2uri"]:
+            if not NCNAME.match(pfx) or pfx.lower().startswith("xml"):
+                fails.append(("illegal-prefix", f"corpus/{cs['meta']['corpus']}: prefix {pfx!r} is not a usable XML prefix", cs))
+        for m in obs["mods"]:
+            if not IDENT.match(m):
+                fails.append(("illegal-module-name", f"corpus/{cs['meta']['corpus']}: module {m!r} is not a Rust identifier", cs))
+    c.cov["corpus_assignments_checked"] = n
+    return fails + st.refinement_coverage(c, cases)
+
+
 def projection(obs, A, norm):
     if obs is None:
         return []
@@ -50,7 +84,7 @@ def projection(obs, A, norm):
 def run(tier, seed):
     return st.run_structural(
         "C10", tier, seed, "ZeepVerif.Props.C10", "ZeepVerif/Audit/C10.lean",
-        [("gen", 250, 6000), ("gencyc", 100, 3000), ("gencollide", 30, 500), ("gentopo", 200, 4000)], oracle, projection, CHECKER, extra_props=[('ZeepVerif.Props.C10Read', 'ZeepVerif/Audit/C10Read.lean'), ('ZeepVerif.Props.C10Graph', 'ZeepVerif/Audit/C10Graph.lean'), ('ZeepVerif.Props.C10All', 'ZeepVerif/Audit/C10All.lean')], extra=st.refinement_coverage,
+        [("gen", 250, 6000), ("gencyc", 100, 3000), ("gencollide", 30, 500), ("gentopo", 200, 4000)], oracle, projection, CHECKER, extra_props=[('ZeepVerif.Props.C10Read', 'ZeepVerif/Audit/C10Read.lean'), ('ZeepVerif.Props.C10Graph', 'ZeepVerif/Audit/C10Graph.lean'), ('ZeepVerif.Props.C10All', 'ZeepVerif/Audit/C10All.lean')], extra=corpus_assignment,
         note_assumptions=["the adversarial URI pool of Spec.Gen.uriPool (equal last segments, equal three-letter abbreviations, trailing slash, dots, "
                           "dashes, digits, URNs, query and fragment), 1-4 namespaces per set, declared at the root, by targetNamespace only, and in imported files, in every import order the graph generator produces"],
         rule_note="The oracle recovers the assignment module<->URI<->prefix from the program itself (module headers, struct prefix and namespaces attributes) and checks that it is a bijection, "
